@@ -263,6 +263,11 @@ func (t *translator) expr(e ast.Expr, sc scope) string {
 				}
 				return t.expr(x.Args[0], sc) // widening or same-width conversion: the value is kept
 			}
+			if id.Name == "make" && len(x.Args) == 2 {
+				if leanType(x.Args[0], t.structs) == "List Int" {
+					return "(List.replicate (Int.toNat " + t.expr(x.Args[1], sc) + ") (0 : Int))" // a zeroed slice
+				}
+			}
 			if id.Name == "len" && len(x.Args) == 1 {
 				return "(Int.ofNat (List.length " + t.expr(x.Args[0], sc) + "))"
 			}
@@ -429,6 +434,11 @@ func (t *translator) typeOfExpr(e ast.Expr, sc scope) string {
 	case *ast.CallExpr:
 		var fd *ast.FuncDecl
 		if id, ok := x.Fun.(*ast.Ident); ok {
+			if id.Name == "make" && len(x.Args) == 2 {
+				if ty := leanType(x.Args[0], t.structs); ty != "" {
+					return ty
+				}
+			}
 			fd = t.funcs[id.Name]
 		} else if sel, ok := x.Fun.(*ast.SelectorExpr); ok {
 			fd = t.funcs[t.key(t.typeOf(sel.X, sc), sel.Sel.Name)]
@@ -525,6 +535,9 @@ func (t *translator) assign(lhs ast.Expr, rhs string, sc scope) string {
 			}
 		}
 	case *ast.IndexExpr:
+		if id, ok := x.X.(*ast.Ident); ok && sc[id.Name] == "List Int" {
+			return "let " + lname(id.Name) + " : List Int := (Go.set " + lname(id.Name) + " " + t.expr(x.Index, sc) + " " + rhs + ");\n  "
+		}
 		if r, p, ok := fieldPath(x.X); ok && p != "" {
 			if _, known := sc[r]; known {
 				return "let " + lname(r) + " := { " + lname(r) + " with " + p + " := (Go.set " + t.expr(x.X, sc) + " " + t.expr(x.Index, sc) + " " + rhs + ") };\n  "
@@ -878,6 +891,38 @@ func (t *translator) stmts(list []ast.Stmt, sc scope, fall func(sc scope) string
 		t.aux = append(t.aux, def)
 		t.brk, t.cont = obrk, ocont
 		return pre + rebind(vars, sc, "("+call(fuelExpr)+")", fmt.Sprintf("r%d", t.nloop)) + t.stmts(rest, sc, fall)
+	case *ast.RangeStmt:
+		// for i, v := range xs { body }  ==  for i := 0; i < len(xs); i++ { v := xs[i]; body }   (xs a slice of integers that the
+		// body does not assign)
+		if x.Tok != token.DEFINE {
+			bail(x.Pos(), "range without :=")
+		}
+		xs, ok := x.X.(*ast.Ident)
+		if !ok || sc[xs.Name] != "List Int" {
+			bail(x.Pos(), "range over something that is not a slice variable")
+		}
+		bodyAcc := map[string]bool{}
+		assigned(x.Body.List, sc, bodyAcc)
+		if bodyAcc[xs.Name] {
+			bail(x.Pos(), "the body assigns the slice it ranges over")
+		}
+		t.nloop++
+		idx := fmt.Sprintf("i_%d", t.nloop)
+		if k, ok := x.Key.(*ast.Ident); ok && k.Name != "_" {
+			idx = k.Name
+		}
+		body := append([]ast.Stmt{}, x.Body.List...)
+		if v, ok := x.Value.(*ast.Ident); ok && v.Name != "_" {
+			body = append([]ast.Stmt{&ast.AssignStmt{Lhs: []ast.Expr{v}, Tok: token.DEFINE,
+				Rhs: []ast.Expr{&ast.IndexExpr{X: xs, Index: &ast.Ident{Name: idx}}}}}, body...)
+		}
+		loop := &ast.ForStmt{
+			Init: &ast.AssignStmt{Lhs: []ast.Expr{&ast.Ident{Name: idx}}, Tok: token.DEFINE, Rhs: []ast.Expr{&ast.BasicLit{Kind: token.INT, Value: "0"}}},
+			Cond: &ast.BinaryExpr{X: &ast.Ident{Name: idx}, Op: token.LSS, Y: &ast.CallExpr{Fun: &ast.Ident{Name: "len"}, Args: []ast.Expr{xs}}},
+			Post: &ast.IncDecStmt{X: &ast.Ident{Name: idx}, Tok: token.INC},
+			Body: &ast.BlockStmt{List: body},
+		}
+		return t.stmts(append([]ast.Stmt{loop}, rest...), sc, fall)
 	case *ast.BranchStmt:
 		if x.Tok == token.BREAK && x.Label == nil && t.brk != nil {
 			return t.brk(sc)
@@ -1117,8 +1162,8 @@ func (t *translator) function(k string) {
 				continue
 			}
 			ty := leanType(r.Type, t.structs)
-			if ty == "" || strings.HasPrefix(ty, "List") {
-				bail(r.Pos(), "result type is not an integer, a bool or a translated struct")
+			if ty == "" || (strings.HasPrefix(ty, "List") && ty != "List Int") {
+				bail(r.Pos(), "result type is not an integer, a bool, a slice of integers or a translated struct")
 			}
 			cnt := len(r.Names)
 			if cnt == 0 {
@@ -1456,7 +1501,7 @@ var codeGroups = []codeGroup{
 	{file: "events/performance.go", namespace: "Events",
 		structs: []string{"PerformanceCounters", "PerformanceTimers", "PerformanceGauges", "Performance"},
 		funcs:   []string{"Performance.Add"}},
-	{file: "util.go", namespace: "Util", funcs: []string{"getOffset"}},
+	{file: "util.go", namespace: "Util", funcs: []string{"getOffset", "undelta"}},
 	{file: "collector_better.go", also: []string{"util.go"}, namespace: "Better", funcs: []string{"getOffset"},
 		regions: []regionSpec{{fn: "getPayload", from: "zeroCount", until: "compressBuffer", outputs: []string{"payload"}}}},
 }
